@@ -202,10 +202,10 @@ impl Finalize for SumSink {
 pub struct UnitSumSink(sinks::unit_system::UnitSystem<SumSink, dimensioned::si::Meter<Q>>);
 #[cfg(feature = "units")]
 impl DynSink for UnitSumSink {
-    fn sink(&mut self, x: Q) {
-        Sink::sink(&mut self.0, dimensioned::si::Meter::new(x))
+    fn sink(&mut self, x: Val) {
+        Sink::sink(&mut self.0, dimensioned::si::Meter::new(Q::from_val(x)))
     }
-    fn ff(&mut self, x: Q) -> String {
+    fn ff(&mut self, x: Val) -> String {
         self.sink(x);
         self.fin()
     }
@@ -270,8 +270,8 @@ enum SrcTop {
 // ---- sinks ------------------------------------------------------------------------------------
 
 pub trait DynSink {
-    fn sink(&mut self, x: Q);
-    fn ff(&mut self, x: Q) -> String;
+    fn sink(&mut self, x: Val);
+    fn ff(&mut self, x: Val) -> String;
     fn fin(&self) -> String;
     fn clone_box(&self) -> Box<dyn DynSink>;
 }
@@ -294,12 +294,15 @@ impl<T: Render> Render for sinks::statistics::Output<T> {
 
 macro_rules! dyn_sink {
     ($ty:ty) => {
+        dyn_sink!($ty, Q);
+    };
+    ($ty:ty, $t:ty) => {
         impl DynSink for $ty {
-            fn sink(&mut self, x: Q) {
-                Sink::sink(self, x)
+            fn sink(&mut self, x: Val) {
+                Sink::sink(self, <$t>::from_val(x))
             }
-            fn ff(&mut self, x: Q) -> String {
-                Filter::filter(self, x).r()
+            fn ff(&mut self, x: Val) -> String {
+                Filter::filter(self, <$t>::from_val(x)).r()
             }
             fn fin(&self) -> String {
                 Finalize::finalize(self.clone()).r()
@@ -317,12 +320,16 @@ dyn_sink!(sinks::integrate::Integrate<Q>);
 dyn_sink!(sinks::mean::Mean<Q>);
 dyn_sink!(sinks::mean_variance::MeanVariance<Q>);
 dyn_sink!(sinks::statistics::Statistics<Q>);
+// partial order (NaN): the order-only sinks at f64
+dyn_sink!(sinks::min::Min<f64>, f64);
+dyn_sink!(sinks::max::Max<f64>, f64);
+dyn_sink!(sinks::bounds::Bounds<f64>, f64);
 impl DynSink for sinks::collect::Collect<Vec<Q>> {
-    fn sink(&mut self, x: Q) {
-        Sink::sink(self, x)
+    fn sink(&mut self, x: Val) {
+        Sink::sink(self, Q::from_val(x))
     }
-    fn ff(&mut self, x: Q) -> String {
-        Filter::filter(self, x).r()
+    fn ff(&mut self, x: Val) -> String {
+        Filter::filter(self, Q::from_val(x)).r()
     }
     fn fin(&self) -> String {
         Finalize::finalize(self.clone()).r()
@@ -332,10 +339,10 @@ impl DynSink for sinks::collect::Collect<Vec<Q>> {
     }
 }
 impl DynSink for sinks::last::Last<Q> {
-    fn sink(&mut self, x: Q) {
-        Sink::sink(self, x)
+    fn sink(&mut self, x: Val) {
+        Sink::sink(self, Q::from_val(x))
     }
-    fn ff(&mut self, _x: Q) -> String {
+    fn ff(&mut self, _x: Val) -> String {
         panic!("harness: Last is not a Filter")
     }
     fn fin(&self) -> String {
@@ -357,6 +364,9 @@ pub fn build_sink(kind: &str) -> Option<Box<dyn DynSink>> {
         "sink_meanvar" => Box::new(sinks::mean_variance::MeanVariance::<Q>::default()),
         "sink_stats" => Box::new(sinks::statistics::Statistics::<Q>::default()),
         "sink_collect" => Box::new(sinks::collect::Collect::<Vec<Q>>::default()),
+        "sink_min_f64" => Box::new(sinks::min::Min::<f64>::default()),
+        "sink_max_f64" => Box::new(sinks::max::Max::<f64>::default()),
+        "sink_bounds_f64" => Box::new(sinks::bounds::Bounds::<f64>::default()),
         #[cfg(feature = "units")]
         "sink_unit_sum" => Box::new(UnitSumSink(sinks::unit_system::UnitSystem::from(SumSink::default()))),
         _ => return None,
@@ -468,7 +478,7 @@ impl Source for SDyn {
 pub struct SinkLeaf(Box<dyn DynSink>);
 impl Sink<Q> for SinkLeaf {
     fn sink(&mut self, x: Q) {
-        self.0.sink(x)
+        self.0.sink(Val::Q(x))
     }
 }
 impl Finalize for SinkLeaf {
@@ -644,6 +654,8 @@ enum PipeTop {
     F(Dyn),
     S(SDyn),
     K(Option<KDyn>),
+    /// a statically typed pipe of zero-sized stages (zpipes.rs)
+    Z(crate::zpipes::ZPipe, String),
 }
 struct PipeInst {
     top: PipeTop,
@@ -669,6 +681,11 @@ fn id(s: &str) -> u32 {
 fn build_pipe(line: &str) -> PipeInst {
     let toks: Vec<&str> = line.split_whitespace().collect();
     let kv = filt::parse_kv(&toks[3..]);
+    if let Some(name) = kv.get("static") {
+        assert_eq!(toks[2..].join(" "), crate::zpipes::describe(name), "harness: static pipe described differently");
+        let log: Log = Rc::new(RefCell::new(Vec::new()));
+        return PipeInst { top: PipeTop::Z(crate::zpipes::build(name), name.to_string()), log, fed: Vec::new(), line: line.to_string() };
+    }
     let shape_s = kv.get("shape").expect("harness: pipe without shape");
     let mut p = P { s: shape_s.as_bytes(), i: 0 };
     let sh = parse_shape(&mut p);
@@ -755,12 +772,12 @@ impl Other {
                 _ => panic!("harness: cached on a source without Cache"),
             },
             "sink" => {
-                let x = Q::from_val(parse_val(toks[2]));
+                let x = parse_val(toks[2]);
                 self.sinks.get_mut(&id(toks[1])).expect("harness: unknown sink id").sink(x);
                 Some("ok".into())
             }
             "ff" => {
-                let x = Q::from_val(parse_val(toks[2]));
+                let x = parse_val(toks[2]);
                 Some(self.sinks.get_mut(&id(toks[1])).expect("harness: unknown sink id").ff(x))
             }
             "fin" => Some(self.sinks[&id(toks[1])].fin()),
@@ -768,11 +785,13 @@ impl Other {
                 let x = Q::from_val(parse_val(toks[2]));
                 match &mut self.pipes.get_mut(&id(toks[1])).expect("harness: unknown pipe id").top {
                     PipeTop::F(d) => Some(d.filter(x).r()),
+                    PipeTop::Z(z, _) => Some(z.filter(x).r()),
                     _ => panic!("harness: pf on a non-filter pipe"),
                 }
             }
             "ppull" => match &mut self.pipes.get_mut(&id(toks[1])).expect("harness: unknown pipe id").top {
                 PipeTop::S(d) => Some(d.source().r()),
+                PipeTop::Z(z, _) => Some(z.source().r()),
                 _ => panic!("harness: ppull on a non-source pipe"),
             },
             "psink" => {
@@ -782,6 +801,10 @@ impl Other {
                 match &mut p.top {
                     PipeTop::K(Some(d)) => {
                         d.sink(x);
+                        Some("ok".into())
+                    }
+                    PipeTop::Z(z, _) => {
+                        z.sink(x);
                         Some("ok".into())
                     }
                     _ => panic!("harness: psink on a non-sink pipe"),
@@ -797,6 +820,7 @@ impl Other {
                 let p = self.pipes.get_mut(&i).unwrap();
                 let r = match &mut p.top {
                     PipeTop::K(d) => d.take().expect("harness: pipe already finalised").finalize(),
+                    PipeTop::Z(z, _) => z.finalize(),
                     _ => panic!("harness: pfin on a non-sink pipe"),
                 };
                 let mut again = build_pipe(&line);
@@ -805,12 +829,20 @@ impl Other {
                         d.sink(*x);
                     }
                 }
+                if let PipeTop::Z(z, _) = &mut again.top {
+                    for x in &fed {
+                        z.sink(*x);
+                    }
+                }
                 again.fed = fed;
                 self.pipes.insert(i, again);
                 Some(r)
             }
             "plog" => {
                 let p = &self.pipes[&id(toks[1])];
+                if let PipeTop::Z(_, name) = &p.top {
+                    return Some(crate::zpipes::log(crate::zpipes::stages(name)));
+                }
                 let logs = p.log.borrow();
                 if logs.is_empty() {
                     return Some("-".into());
